@@ -257,3 +257,72 @@ func zzH_C11_recv() {
 		verifReach("error")
 	}
 }
+
+
+// zzLink11: one direction of the connection between two transfers; everything from message `silentFrom` on is lost
+type zzLink11 struct {
+	peer       *trzszTransfer
+	n          int
+	silentFrom int // 0 = never
+}
+
+func (l *zzLink11) Write(p []byte) (int, error) {
+	l.n++
+	if l.silentFrom > 0 && l.n >= l.silentFrom {
+		return len(p), nil
+	}
+	c := make([]byte, len(p))
+	copy(c, p)
+	l.peer.addReceivedData(c, false)
+	return len(p), nil
+}
+
+// the stop-and-wait loops of protocol 1 (old peers): sender and receiver back to back; the source may shrink or fail at
+// some read, the destination may fail at some write, either direction may go silent from some message on. Both loops
+// return after finitely many steps and within the time-outs, with an error unless everything was transferred.
+func zzH_C11_oldLoops() {
+	S := newTransfer(nil, nil, false, nil)
+	R := newTransfer(nil, nil, false, nil)
+	toR := &zzLink11{peer: R, silentFrom: verifNondetRange(0, verifBound("SILENT"))}
+	toS := &zzLink11{peer: S}
+	if toR.silentFrom == 0 {
+		toS.silentFrom = verifNondetRange(0, verifBound("SILENT"))
+	}
+	S.writer, R.writer = toR, toS
+	binary := verifNondetBool()
+	for _, t := range []*trzszTransfer{S, R} {
+		t.transferConfig.Protocol = 1
+		t.transferConfig.Timeout = 1
+		t.transferConfig.Binary = binary
+		t.transferConfig.MaxBufSize = 1024
+	}
+	size := int64(verifBound("SIZE"))
+	file := &zzFile11{size: size, chunk: 3, failAt: verifNondetRange(0, verifBound("RFAIL"))}
+	if verifNondetBool() {
+		file.short = 1
+	}
+	w := &zzWriter11{failAt: verifNondetRange(0, verifBound("DFAIL"))}
+	sdone, rdone := false, false
+	var serr, rerr error
+	go func() { _, serr = S.sendFileData(file, nil); sdone = true }()
+	go func() { _, rerr = R.recvFileData(w, size, nil); rdone = true }()
+	verifQuiesce()
+	zzSettle11()
+	verifAssert(sdone, "the protocol-1 sender did not return")
+	verifAssert(rdone, "the protocol-1 receiver did not return")
+	faulty := file.short != 0 || file.failAt != 0 || w.failAt != 0 || toR.silentFrom != 0 || toS.silentFrom != 0
+	if !faulty {
+		verifAssert(serr == nil, "sender failed without a fault")
+		verifAssert(rerr == nil, "receiver failed without a fault")
+		verifAssert(int64(len(w.data)) == size, "bytes lost without a fault")
+		verifReach("old-ok")
+		return
+	}
+	if serr == nil {
+		verifAssert(file.short == 0, "sender reports success for a source that shrank")
+	}
+	if rerr == nil {
+		verifAssert(int64(len(w.data)) == size, "receiver reports success for an incomplete file")
+	}
+	verifReach("old-fault")
+}
